@@ -61,24 +61,33 @@ def generate(rng, tier):
             n += 1
             yield scenario('w%d' % n, b' '.join(toks), b' '.join(toks[:k]) + r.pick([b'\n\n', b'\t \t', b' \n\t ']) + b' '.join(toks[k:]), 0, 'whitespace', True)
     # annotations
-    notes = [b'note', b'  padded  ', b'two words', b'', b' ', b'multi\nline', b'* star *', b'a # b', b'x' * 70, b'\tt\t']
+    notes = [b'note', b'  padded  ', b'two words', b'', b' ', b'multi\nline', b'* star *', b'a # b', b'x' * 70, b'\tt\t',
+             # every white-space character at both ends (a C comment closing on its own line, CR LF line ends)
+             b'\n own line\n', b'cr\r', b'\r\n both \r', b'\x0bvt ff\x0c', b' \t\n\x0b\x0c\r']
     for note in notes:
         for style in ('c', 'hash', 'slashes'):
-            if style != 'c' and b'\n' in note:
+            if style != 'c' and (b'\n' in note or (b'\r' in note and not note.endswith(b'\r'))):
                 continue
             cm = {'c': b'/*' + note + b'*/', 'hash': b'#' + note + b'\n', 'slashes': b'//' + note + b'\n'}[style]
             for item, opt in ((b'i = 5', b'i'), (b'il = {3, 4}', b'il'), (b's = "v"', b's'), (b'sec { ' + cm + b' a = 2 }', b'sec|a'),
                               (b'il = {3, 4,}', b'il'), (b'il += {5}', b'il'), (b'il = 6', b'il'), (b'b = on', b'b'), (b'f = 1.5', b'f'),
                               # further comments INSIDE the item do not replace the annotation taken from the one in front
                               (b'i = /* inner */ 5', b'i'), (b'il = {3, /* in */ 4}', b'il'), (b'il = { # x\n 3 }', b'il'),
-                              (b's /* mid */ = "v"', b's')):
+                              (b's /* mid */ = "v"', b's'),
+                              # a later assignment without a comment of its own replaces the values, not the annotation
+                              (b'i = 5 i = 6', b'i'), (b'il = {3} il = {4, 5}', b'il'), (b's = "v"\ns = "w"', b's'), (b'f = 1.5 b = on f = 2.5', b'f'),
+                              (b'il = {3} il += {4} il = 5', b'il')):
                 n += 1
                 text = (cm + b' ' + item) if opt != b'sec|a' else item
                 if n % 3 == 0:
                     # earlier tokens of the same scan: a long string, then a shorter one, then a comment
                     text = b's = "' + b'L' * (20 + n % 50) + b'" s = "' + b'x' * (n % 7) + b'" # ' + b'c' * (n % 30) + b'\n' + text
-                lines = gen.prelude(SCHEMA, F['COMMENTS']) + ['init 1 0 %d' % F['COMMENTS'], 'parse_buf 0 ' + hx(text + b'\n'), 'dump 0', 'print 0 0',
-                                                              'roundtrip 0 1', 'dump 1']
+                second = []
+                if n % 5 == 0 and opt in (b'i', b's', b'il', b'b', b'f'):
+                    # ... nor does a second text parsed into the same context (a bare per-user override)
+                    second = ['parse_buf 0 ' + hx({b'i': b'i = 9', b's': b's = "over"', b'il': b'il = {9}', b'b': b'b = off', b'f': b'f = 0.25'}[opt] + b'\n')]
+                lines = gen.prelude(SCHEMA, F['COMMENTS']) + ['init 1 0 %d' % F['COMMENTS'], 'parse_buf 0 ' + hx(text + b'\n')] + second + [
+                    'dump 0', 'print 0 0', 'roundtrip 0 1', 'dump 1']
                 yield Scn('a%d' % n, lines, {'class': 'annotation/' + style, 'kind': 'annot', 'note': note, 'opt': opt, 'inside': True})
 
 
